@@ -47,7 +47,7 @@ def _region(ctx, family):
         return m, fem.RegionHexahedron(m)
 
 
-def case_project(ctx, family, shape):
+def case_project(ctx, family, shape, explicit_dV=False):
     from symnp.spstub import RECORDER
 
     m, region = _region(ctx, family)
@@ -62,7 +62,13 @@ def case_project(ctx, family, shape):
         for q_ in range(nq):
             vals[(Ellipsis, q_, c)] = sum(h[a, q_, 0] * U[m.cells[c, a]] for a in range(m.cells.shape[1]))
     ncalls = len(RECORDER.calls)
-    out = fem.project(vals, region)
+    dVx = None
+    if explicit_dV:
+        # a caller-supplied measure (axisymmetric 2 pi r dA, deformed volumes J dV, ...): both sides of the projection use it
+        dVx = np.asarray(region.dV) * ctx.array("g", np.asarray(region.dV).shape, 0.5, 2)
+        if not ctx.sym:
+            dVx = np.asarray(dVx, dtype=float)
+    out = fem.project(vals, region, **({"dV": dVx} if explicit_dV else {}))
     if ctx.sym:
         call = RECORDER.calls[-1]
         ctx.check_concrete("one_linear_solve", len(RECORDER.calls) == ncalls + 1)
@@ -71,7 +77,7 @@ def case_project(ctx, family, shape):
         ctx.equal("right_hand_side_is_A_times_nodal_field", b, A @ Uf, tol=1e-12, validate=False)
         ctx.equal("result_is_solver_solution", np.asarray(out).reshape(m.npoints, size), call["x"].reshape(m.npoints, size), validate=False)
         # volume integral preserved: ones^T b = sum_q v_q dV_q   (uses the region the routine actually integrated on)
-        dV = np.asarray(region.dV) if nq == np.asarray(region.dV).shape[0] else None
+        dV = (np.asarray(region.dV) if not explicit_dV else dVx) if nq == np.asarray(region.dV).shape[0] else None
         if dV is not None:
             integ = np.array([sum(np.asarray(vals).reshape(size, nq, nc)[k, q_, c] * dV[q_, c] for q_ in range(nq) for c in range(nc)) for k in range(size)], dtype=object)
             ctx.equal("volume_integral_preserved", b.sum(axis=0), integ, tol=1e-12, validate=False)
@@ -200,6 +206,15 @@ def case_view_solid(ctx, stress_type):
     F = np.asarray(field.extract()[0])
     Fm = np.array([[[sum(F[i, j, q_, c] for q_ in range(nq)) / nq for i in range(3)] for j in range(3)] for c in range(nc)], dtype=object if ctx.sym else float)
     ctx.equal("deformation_gradient_cell_datum_is_quadrature_mean", np.asarray(cd["Deformation Gradient"]).reshape(nc, 3, 3), Fm, tol=1e-12)
+    # equivalent (von Mises) datum: quadrature mean of the von Mises values of the quadrature-point stresses (NOT the von Mises
+    # value of the mean stress)
+    def vm(S_):
+        tr = (S_[0, 0] + S_[1, 1] + S_[2, 2]) / 3
+        dev = [[S_[i, j] - (tr if i == j else 0) for j in range(3)] for i in range(3)]
+        return (sum(dev[i][j] * dev[i][j] for i in range(3) for j in range(3)) * 3 / 2) ** 0.5
+
+    eqv = np.array([sum(vm(stress[:, :, q_, c]) for q_ in range(nq)) / nq for c in range(nc)], dtype=object if ctx.sym else float)
+    ctx.equal("equivalent_stress_cell_datum_is_quadrature_mean_of_von_mises_values", np.asarray(cd["Equivalent of %s" % label]).reshape(-1), eqv, rtol_replay=1e-7)
     key = "Principal Values of %s" % label
     if ctx.sym:
         # the eigen-solver stub was handed the stress itself (per quadrature point) and the datum is the mean of its results
@@ -311,6 +326,8 @@ def cases(tier):
             if tier == "quick" and fam == "hex8" and shape != []:
                 continue
             out.append(("project", case_project, {"family": fam, "shape": shape}))
+    out.append(("project", case_project, {"family": "quad4x2", "shape": [], "explicit_dV": True}))
+    out.append(("project", case_project, {"family": "tri3", "shape": [2], "explicit_dV": True}))
     out.append(("extrapolate", case_extrapolate, {"family": "quad4x2"}))
     out.append(("extrapolate", case_extrapolate, {"family": "hex8"}))
     out.append(("topoints", case_topoints, {"family": "quad4x2"}))
